@@ -67,7 +67,7 @@ func (c18) counts(tier string) int {
 	if tier == "thorough" {
 		return 6000
 	}
-	return 260
+	return 420
 }
 
 func (p c18) NumCases(tier string) int { return (len(c18Programs) + p.counts(tier)) * 2 }
